@@ -390,6 +390,28 @@ Definition api_prune8 : M unit :=
   for_each_set prune_ns7 ss ;;;
   for_each_set prune_if8 is_.
 
+(* ---- prune as extended by proposed_fixes/C08-9: the collection phase also visits the Facility nodes (which
+   Topology.nodes leaves out; their services and interfaces were already visited through topology.network_services),
+   and a Facility node is removed with remove_facility.  Selected when the running library's prune mentions
+   facilities and _prune_node mentions remove_facility. ---- *)
+Definition prune_node9 (nn : N * N) : M unit :=                  (* (name, id) of the Node handle *)
+  b <- exists_as CNode (snd nn) ;;
+  if b then (t <- m_get (fun g => type_of g (snd nn)) ;;
+             if N.eqb t T_Facility then api_remove_facility (fst nn) else api_remove_node (fst nn))
+  else ret tt.
+
+Definition api_prune9 : M unit :=
+  ns_ <- m_get (fun g => map (fun n => (name_of g n, n)) (filter (marked g) (all_of_class g CNode))) ;;
+  cs <- m_get (fun g => map (fun cn => (name_of g (fst cn), cn))
+                           (filter (fun cn => marked g (fst cn)) (prune_comps g))) ;;
+  ss <- m_get (fun g => dedup (filter (marked g) (prune_all_nss g))) ;;
+  is_ <- m_get (fun g => dedup (filter (marked g)
+                           (flat_map (with_children g) (flat_map (ns_interfaces g) (prune_all_nss g))))) ;;
+  for_each_set prune_node9 ns_ ;;;
+  for_each_set prune_comp7 cs ;;;
+  for_each_set prune_ns7 ss ;;;
+  for_each_set prune_if8 is_.
+
 (* ------------------------------------------------------------------------------------------ *)
 (* one operation of the interface, and its execution from a snapshot                           *)
 (* ------------------------------------------------------------------------------------------ *)
@@ -408,7 +430,8 @@ Inductive op :=
 | ORemoveChild (p : N) (iname : N)
 | OPrune
 | OPrune7
-| OPrune8.
+| OPrune8
+| OPrune9.
 
 (* caches: the _interfaces lists of the handles the operation goes through (0, 1 or 2 of them) *)
 Definition exec (experiment : bool) (o : op) (caches : list (list N)) : M (list (list N)) :=
@@ -430,6 +453,7 @@ Definition exec (experiment : bool) (o : op) (caches : list (list N)) : M (list 
   | OPrune => api_prune ;;; ret caches
   | OPrune7 => api_prune7 ;;; ret caches
   | OPrune8 => api_prune8 ;;; ret caches
+  | OPrune9 => api_prune9 ;;; ret caches
   end.
 
 (* ---- correspondence: the recorded implementation observation vs the model's prediction ---- *)
